@@ -553,11 +553,42 @@ pub fn alg7_owner(enc: &EncDict, id0: &[u8], pw: &[u8]) -> Option<(Vec<u8>, Vec<
 
 /// Algorithm 2.B (revision 6); revision 5 uses the plain SHA-256 of the input.
 pub fn hash_r56(r: i64, pw: &[u8], salt: &[u8], udata: &[u8]) -> Vec<u8> {
+    hash_r56_trace(r, pw, salt, udata).0
+}
+
+/// How the loop of Algorithm 2.B ended for one input.
+#[derive(Clone, Copy, PartialEq, Eq, Debug)]
+pub struct HashTrace {
+    /// number of rounds executed (>= 64; 0 for revision 5)
+    pub rounds: u32,
+    /// last byte of E in the final round
+    pub last_byte: u8,
+}
+
+impl HashTrace {
+    /// exit exactly on the boundary of step (f): last byte == rounds - 32
+    pub fn on_boundary(&self) -> bool {
+        self.rounds >= 64 && self.last_byte as u32 == self.rounds - 32
+    }
+    /// exit at round 64 with a last byte well below the limit
+    pub fn well_inside_64(&self) -> bool {
+        self.rounds == 64 && self.last_byte < 24
+    }
+    /// needed more than 64 rounds
+    pub fn over_64(&self) -> bool {
+        self.rounds > 64
+    }
+}
+
+/// Algorithm 2.B with its termination data.
+pub fn hash_r56_trace(r: i64, pw: &[u8], salt: &[u8], udata: &[u8]) -> (Vec<u8>, HashTrace) {
     let mut k = sha256(&[pw, salt, udata]);
     if r == 5 {
-        return k;
+        return (k, HashTrace { rounds: 0, last_byte: 0 });
     }
     let mut round: u32 = 0;
+    #[allow(unused_assignments)]
+    let mut last: u8 = 0;
     loop {
         let mut k1 = Vec::with_capacity(64 * (pw.len() + k.len() + udata.len()));
         for _ in 0..64 {
@@ -576,12 +607,13 @@ pub fn hash_r56(r: i64, pw: &[u8], salt: &[u8], udata: &[u8]) -> Vec<u8> {
             _ => Sha512::digest(&e).to_vec(),
         };
         round += 1;
-        if round >= 64 && (*e.last().unwrap() as u32) <= round - 32 {
+        last = *e.last().unwrap();
+        if round >= 64 && (last as u32) <= round - 32 {
             break;
         }
     }
     k.truncate(32);
-    k
+    (k, HashTrace { rounds: round, last_byte: last })
 }
 
 /// Algorithm 8: (U, UE).
